@@ -18,7 +18,7 @@ Definition tab_m (tab : list mrow) (s : rs unit) (l : line Z) : rs unit * bool :
 Record runcase := mkRun {
   rc_scanner : sc;
   rc_blank : list bool;
-  rc_cwnm : bool; rc_unm : bool;
+  rc_cwnm : bool; rc_unm : bool; rc_will_run : bool;
   rc_method : Z;            (* 0 collect, 1 next, 2 fast_forward, 3 collect(nexts=k) *)
   rc_k : nat;
   rc_tab : list mrow;
@@ -31,7 +31,7 @@ Definition recs_of (bl : list bool) : list (line Z) :=
 
 Definition run_model (q : bool) (r : runcase) : ls Z unit :=
   let recs := recs_of (rc_blank r) in
-  let c := mkCfg (rc_scanner r) q (end_of Z recs) (rc_cwnm r) false (rc_unm r) true in
+  let c := mkCfg (rc_scanner r) q (end_of Z recs) (rc_cwnm r) false (rc_unm r) (rc_will_run r) in
   let m := tab_m (rc_tab r) in
   if rc_method r =? 0 then collect Z unit m c tt recs
   else if rc_method r =? 1 then next_all Z unit m c tt recs
